@@ -195,10 +195,16 @@ func addValueFacts(s *State, v Value) {
 // loadAt reads a value of type t located at (root, r, i, pathPrefix) from heap h.
 func (s *State) loadAt(h *Heap, root types.Type, r, i *Term, prefix string, t types.Type, facts bool) Value {
 	v := unflatten(t, "", func(l leaf) *Term {
-		fam := h.family(familyName(root, joinPath(prefix, l.path)), l.sort)
+		name := familyName(root, joinPath(prefix, l.path))
+		fam := h.family(name, l.sort)
 		x := Select(Select(fam, r), i)
 		if facts {
 			s.assumeLeafFacts(l, x, h)
+			if strings.HasSuffix(l.path, "$r") || strings.HasSuffix(l.path, "$p") {
+				// entry-heap well-formedness: a region stored in the heap at function entry was allocated at entry
+				e := Select(Select(Sym(name+"@0", fam.Sort), r), i)
+				s.assume(Select(Sym("alloc@0", SArrB), e))
+			}
 		}
 		return x
 	})
